@@ -18,6 +18,11 @@ func genC20(r *Rng, e *Emitter, n int) {
 			size = r.Intn(3)
 		case 1:
 			size = 50 + r.Intn(151)
+		case 2:
+			if r.chance(1, 6) {
+				// long lines: deep split trees (sawtooth, spiral) and block boundaries
+				size = []int{130, 150, 200, 256, 257, 300, 513, 1024, 1025, 2048}[r.Intn(10)]
+			}
 		}
 		grid := []int{3, 6, 20, 1000}[r.Intn(4)]
 		shape := r.Intn(6)
@@ -39,6 +44,11 @@ func genC20(r *Rng, e *Emitter, n int) {
 				}
 			case 2: // horizontal with noise
 				x, y = 3*k, r.Intn(3)
+			case 5: // unit sawtooth: with a threshold below the tooth height the split tree is one long chain
+				x, y = k, k%2
+				if size > 60 && r.chance(1, 2) {
+					y = (k % 2) * (1 + k/8) // growing teeth: the chain descends to the right
+				}
 			}
 			px, py = x, y
 			flat = append(flat, float64(x), float64(y))
